@@ -2,6 +2,7 @@
 (* Judges what the real mlr printed.  One line per case:                                                           *)
 (*   [kind |-> "sec" | "ns", n, s, f, out]   out[i] = the text printed for probe i of ProbesOf(kind)               *)
 (*   [kind |-> "dur", sg, d, r, out]         out[i] for DurProbes[i]                                               *)
+(*   [kind |-> "diff", n1, s1, n2, s2, out]  out[i] = datediff(t1, t2, DiffUnits[i])                               *)
 (*   [kind |-> "non", x, out]                out[i] for NonProbes[i]                                               *)
 (* (a probe the harness did not run, because Asked is false, carries "")                                           *)
 (* Every non-conforming (line, probe) is printed; the invariant itself never fails.                                *)
@@ -11,30 +12,26 @@ Obs == ndJsonDeserialize(ObsFile)
 VARIABLE l
 Init == l = 1
 Next == l < Len(Obs) /\ l' = l + 1
-Report(i, fn, why, cls) == PrintT(ToJson([line |-> l, i |-> i, fn |-> fn, why |-> why, cls |-> cls]))
+Report(i, fn, why, cls) == PrintT(ToJson([line |-> l, i |-> i, fn |-> fn, why |-> why, cls |-> cls]))     \* cls: a tuple of class names
 Conforms ==
   LET o == Obs[l] IN
   CASE o.kind \in {"sec", "ns"} ->
          LET ps == ProbesOf(o.kind) IN
-         /\ Len(o.out) = Len(ps) \/ Report(0, "", "shape", "")
+         /\ Len(o.out) = Len(ps) \/ Report(0, "", "shape", <<>>)
          /\ \A i \in 1..Len(ps) :
               LET v == Verdict(ps[i], o.n, o.s, o.f, o.out[i]) IN
-              v = "ok" \/ Report(i, ps[i].fn, v, RangeClass(o.n, o.s))
+              v = "ok" \/ Report(i, ps[i].fn, v, <<RangeClass(o.n, o.s), FracClass(o.f)>>)
     [] o.kind = "dur" ->
-         /\ Len(o.out) = Len(DurProbes) \/ Report(0, "", "shape", "")
+         /\ Len(o.out) = Len(DurProbes) \/ Report(0, "", "shape", <<>>)
          /\ \A i \in 1..Len(DurProbes) :
               LET v == DurVerdict(DurProbes[i], o.sg, o.d, o.r, o.out) IN
-              v = "ok" \/ Report(i, DurProbes[i], v, IF o.sg < 0 THEN "negative" ELSE "non-negative")
+              v = "ok" \/ Report(i, DurProbes[i], v, <<IF o.sg < 0 THEN "negative" ELSE "non-negative">>)
+    [] o.kind = "diff" ->
+         /\ Len(o.out) = Len(DiffUnits) \/ Report(0, "", "shape", <<>>)
+         /\ \A i \in 1..Len(DiffUnits) :
+              LET v == DiffVerdict(DiffUnits[i], o.n1, o.n2, o.out[i]) IN
+              v = "ok" \/ Report(i, DiffUnits[i], v, <<IF o.n1 <= o.n2 THEN "forward" ELSE "backward", DiffClass(o.n1, o.n2)>>)
     [] o.kind = "non" ->
-         /\ Len(o.out) = Len(NonProbes) \/ Report(0, "", "shape", "")
-         /\ \A i \in 1..Len(NonProbes) : o.out[i] = o.x \/ Report(i, NonProbes[i], "changed", "non-number")
-\* how many (case, probe) pairs of this line the specification decides (for the evidence)
-Decided ==
-  LET o == Obs[l] IN
-  PrintT(ToJson([decided |->
-    CASE o.kind \in {"sec", "ns"} -> Cardinality({i \in 1..Len(ProbesOf(o.kind)) : Asked(ProbesOf(o.kind)[i], o.n, o.s, o.f)})
-      [] o.kind = "dur" -> Cardinality({i \in 1..Len(DurProbes) :
-                               IF DurIsParse(DurProbes[i]) THEN DurInput(DurProbes[i], o.sg, o.d, o.r) # ""
-                               ELSE (o.sg > 0 \/ DurProbes[i] \notin {"sec2dhms", "fsec2dhms", "fsec2dhms.f", "sec2hms", "fsec2hms", "fsec2hms.f"})})
-      [] o.kind = "non" -> Len(NonProbes)]))
+         /\ Len(o.out) = Len(NonProbes) \/ Report(0, "", "shape", <<>>)
+         /\ \A i \in 1..Len(NonProbes) : o.out[i] = o.x \/ Report(i, NonProbes[i], "changed", <<"non-number">>)
 =============================================================================
